@@ -27,6 +27,13 @@ def genrec_world():
     return d
 
 
+def resume_world():
+    """a RESUMABLE first task: a failed attempt leaves its work directory, the retry picks it up - its records are those of the retry only"""
+    d = families.chain3(kinds=('continues', 'json', 'dir'))
+    d['name'] = 'resume'
+    return d
+
+
 def nestlog_world():
     """two tasks of one class (same task name) in different namespaces, one an input of the other: the inner one runs
     nested inside the outer one's run"""
@@ -49,7 +56,7 @@ def _rich(f):
     return g
 
 
-WORLDS = {'rec3': _rich(rec_world), 'mount2': _rich(families.mount2), 'chain3': _rich(families.chain3), 'nestlog': _rich(nestlog_world), 'genrec': _rich(genrec_world)}
+WORLDS = {'rec3': _rich(rec_world), 'mount2': _rich(families.mount2), 'chain3': _rich(families.chain3), 'nestlog': _rich(nestlog_world), 'genrec': _rich(genrec_world), 'resume': _rich(resume_world)}
 
 
 def expected_records(m, fn, gen):
@@ -60,7 +67,7 @@ def expected_records(m, fn, gen):
         'input_tasks': {t: m.key(t) for t in ti.input_names},
         'namespace': ti.ns,
         'config': m.config_name(ti.mount[1]),
-        'log': [{'tcv': ti.key, 'gen': gen, 'seq': 0, 'pad': worlds.rich_pad(gen)}, {'tcv': ti.key, 'gen': gen, 'seq': 1}],
+        'log': worlds.rich_records(ti.key, gen),
         'messages': [f'tcv {ti.key} gen{gen} begin', f'tcv {ti.key} gen{gen} helper', f'tcv {ti.key} gen{gen} end'],
     }
 
@@ -325,7 +332,7 @@ def silent_rerun():
         if old:
             out.append(('log of the latest run holds lines of an earlier run', f'recomputation (generation 1) with logging disabled: log still shows {log}'))
         ri = obs['records']['a']['run_info'] or {}
-        if ri.get('log') != [{'tcv': 'A', 'gen': 1, 'seq': 0, 'pad': worlds.rich_pad(1)}, {'tcv': 'A', 'gen': 1, 'seq': 1}]:
+        if ri.get('log') != worlds.rich_records('A', 1):
             out.append(('run info records are not those of the producing run', f'{ri.get("log")}'))
     finally:
         ex.close()
@@ -334,10 +341,12 @@ def silent_rerun():
 
 def plan(tier):
     out = []
-    for name in (['rec3', 'mount2', 'nestlog', 'genrec'] if tier == 'quick' else ['rec3', 'mount2', 'chain3', 'nestlog', 'genrec']):
+    for name in (['rec3', 'mount2', 'nestlog', 'genrec', 'resume'] if tier == 'quick' else ['rec3', 'mount2', 'chain3', 'nestlog', 'genrec', 'resume']):
         desc = WORLDS[name]()
         keys = list(desc['tasks'])
         faults = [(keys[0], 'raise'), (keys[0], 'raise_late'), (keys[-1], 'raise'), (keys[0], 'wrong_type'), (keys[0], 'interrupt')]
+        if name == 'resume':
+            faults = [(keys[0], 'raise_partial'), (keys[0], 'raise'), (keys[-1], 'raise_partial')]
         variants = list(desc['variants'])[:2]
         sp = specs.build(desc, variants=variants, ops=('new', 'value', 'tforce', 'fail'), slots=2 if tier != 'quick' else 1, faults=faults, delete_flags=(False,),
                          max_faults=1 if tier == 'quick' else 2, records=True)
